@@ -61,6 +61,24 @@ func (m *machine) addHandler(t *rapid.T) {
 	if m.ended || len(m.hs) >= 5 {
 		return // not applicable in this state (cannot add): a no-op, never a skipped action
 	}
+	if rapid.IntRange(0, 4).Draw(t, "nameAlreadyTaken") == 0 {
+		// an AddHandler call the router refuses (it panics with DuplicateHandlerNameError): a refused call leaves no trace,
+		// everything after it goes on as if it had not been made
+		for _, old := range m.hs {
+			if old.stopped {
+				continue
+			}
+			func() {
+				defer func() {
+					if r := recover(); r != nil {
+						m.log("AddHandler(%s) refused: name taken", old.name)
+					}
+				}()
+				m.router.AddNoPublisherHandler(old.name, "in-dup", lib.NewScriptSub(""), func(*message.Message) error { return nil })
+			}()
+			break
+		}
+	}
 	h := &hstate{name: fmt.Sprintf("h%d", len(m.hs)), sub: lib.NewScriptSub(""), handled: map[string]bool{}}
 	h.pub = rapid.IntRange(-1, len(m.pubs)-1).Draw(t, "publisher")
 	h.addedBeforeRun = !m.running
